@@ -364,6 +364,15 @@ func init() {
 							}
 							add(csi("H_C03", s, cfg, n, c, 0))
 						}
+						if n == w+1 && !s.heavy && tier == "thorough" {
+							// the same case under the other scheduling policies: the certificate says
+							// the outcome cannot differ; this cross-checks the lemma's implementation
+							for sched := 1; sched <= 2; sched++ {
+								c := csi("H_C03", s, cfg, n, 0, 0)
+								c.Sched = sched
+								add(c)
+							}
+						}
 						if s.nin > 1 {
 							for sk := 1; sk <= 4; sk++ {
 								if s.heavy && (sk > 2 || n > w+1) && tier != "thorough" {
@@ -478,6 +487,18 @@ func decoReuseCases(tier string) []sym.CaseSpec {
 			c.MaxPaths = 60000
 			c.Weight = 500
 			out = append(out, c)
+		}
+	}
+	// two calls alive at the same time on one decorator instance, three scheduling policies
+	for kind := 4; kind <= 6; kind++ {
+		for _, n := range []int{2, 3} {
+			for sched := 0; sched <= 2; sched++ {
+				c := cs("H_C09_DecoConc", kind, n)
+				c.Cert, c.TrackMem = true, true
+				c.Sched = sched
+				c.MaxPaths = 20000
+				out = append(out, c)
+			}
 		}
 	}
 	return out
